@@ -92,11 +92,44 @@ def run(an: Analysis, rep):
         for g, pos in gs:
             parts = g.values if isinstance(g, ast.BoolOp) and isinstance(g.op, ast.And) else [g]
             for p_ in parts:
-                if not (isinstance(p_, ast.Call) and isinstance(p_.func, ast.Name) and p_.func.id == "isinstance") or not pos:
+                is_type = isinstance(p_, ast.Call) and isinstance(p_.func, ast.Name) and p_.func.id == "isinstance"
+                # de-duplication: `<yielded value> not in seen`, where `seen` is a local set that only ever receives yielded values
+                is_dedup = False
+                if isinstance(p_, ast.Compare) and len(p_.ops) == 1 and isinstance(p_.ops[0], ast.NotIn) and isinstance(p_.comparators[0], ast.Name) and isinstance(y, ast.Yield) \
+                        and y.value is not None and ast.dump(p_.left) == ast.dump(y.value):
+                    sname = p_.comparators[0].id
+                    inits = [a for a in ast.walk(fn.node) if isinstance(a, ast.Assign) and any(isinstance(t, ast.Name) and t.id == sname for t in a.targets)]
+                    adds = [c for c in ast.walk(fn.node) if isinstance(c, ast.Call) and isinstance(c.func, ast.Attribute) and isinstance(c.func.value, ast.Name) and c.func.value.id == sname]
+                    is_dedup = len(inits) == 1 and isinstance(inits[0].value, ast.Call) and getattr(inits[0].value.func, "id", "") == "set" and not inits[0].value.args \
+                        and all(c.func.attr == "add" and len(c.args) == 1 and ast.dump(c.args[0]) == ast.dump(y.value) for c in adds) and bool(adds)
+                if not (is_type or is_dedup) or not pos:
                     nontype.append(p_)
         rep.add("R14.1", f"{fn.qual}::yield at line-independent guard {norm_src(st)[:40]}", not nontype, loc(fn.module, st),
                 f"the yield is also conditional on `{norm_src(nontype[0])}`: some nested code objects of the right type are skipped" if nontype
                 else "the yield is conditional on type tests only")
+    # R14.4: one per code object - a constant loaded by several instructions (CPython merges equal lambdas; 3.9+ emits a `finally` body twice) is one entry
+    rep.rule("R14.4", "each nested code object is yielded once, however many instructions load it", 1)
+    inst_routes = [r for r in all_routes if len(r) >= 2 and r[0] == "blocks"]
+    for y in [n for n in ast.walk(fn.node) if isinstance(n, ast.Yield) and n.value is not None]:
+        yv = it.value_at(y.value)
+        via_instr = any(a[0] == "src" and tuple(st[1] for st in a[2] if st[0] == "a") in inst_routes for a in yv)
+        if not via_instr:
+            continue
+        from .encode_model import guards_of as _g2, parent_map as _p2
+        st = y
+        pm = _p2(fn.module)
+        while id(st) in pm and not isinstance(st, ast.stmt):
+            st = pm[id(st)]
+        gs = _g2(fn.module, fn, st)
+        dedup = any(isinstance(c, ast.Compare) and isinstance(c.ops[0], ast.NotIn) for g, pos in gs for c in ast.walk(g)) and \
+            any(isinstance(c, ast.Call) and isinstance(c.func, ast.Attribute) and c.func.attr == "add" for c in ast.walk(fn.node))
+        uniq_iter = any(isinstance(n, ast.For) and isinstance(n.iter, ast.Call) and ((isinstance(n.iter.func, ast.Attribute) and n.iter.func.attr == "fromkeys") or
+                                                                                    (isinstance(n.iter.func, ast.Name) and n.iter.func.id in ("set", "frozenset")))
+                        and any(x is y for x in ast.walk(n)) for n in ast.walk(fn.node))
+        rep.add("R14.4", f"{fn.qual}::operands that load the same constant are yielded once", dedup or uniq_iter, loc(fn.module, st),
+                "a set of already yielded constants (or an iteration over distinct constants) guards the yield" if dedup or uniq_iter else
+                f"`{norm_src(st)}` runs once per *instruction*: a nested code object loaded by two instructions (`x = [lambda: 0, lambda: 0]` - CPython stores the two equal lambdas "
+                f"as one constant; on 3.9+ the body of a `finally` is emitted twice) is yielded twice, so all_code_data() returns more objects than the walk over co_consts")
     if others:
         rep.add("R14.1", f"{fn.qual}::yields only parts of self", False, w, f"yields values not taken from self: {[fmt_atom(a) for a in others][:3]}")
     # R14.2
